@@ -17,13 +17,33 @@ def insertEntry (e : String × String) : List (String × String) → List (Strin
     else if e.1 < x.1 then e :: x :: xs
     else x :: insertEntry e xs
 
+/-- IEEE-754: the binary64 bit pattern with the same value as the binary32 pattern `b` (go-codec decodes a msgpack
+    float32 into an `interface{}` as `float64(float32)`; NaNs are printed as one canonical NaN on both sides) -/
+def f32to64 (b : Nat) : Nat :=
+  let sign := (b / 2 ^ 31) % 2
+  let e := (b / 2 ^ 23) % 256
+  let m := b % 2 ^ 23
+  if e = 255 then
+    if m = 0 then sign * 2 ^ 63 + 2047 * 2 ^ 52 else 2047 * 2 ^ 52 + 2 ^ 51   -- infinity / canonical NaN
+  else if e = 0 then
+    if m = 0 then sign * 2 ^ 63
+    else
+      -- subnormal: value = m * 2^-149; normalise
+      let k := Nat.log2 m                      -- position of the leading one (0..22)
+      let e64 := k + 1023 - 149
+      let frac := (m - 2 ^ k) * 2 ^ (52 - k)
+      sign * 2 ^ 63 + e64 * 2 ^ 52 + frac
+  else sign * 2 ^ 63 + (e + 1023 - 127) * 2 ^ 52 + m * 2 ^ 29
+
+def isNaN64 (b : Nat) : Bool := (b / 2 ^ 52) % 2048 == 2047 && b % 2 ^ 52 != 0
+
 partial def vtext : Value → String
   | .nil => "n"
   | .bool true => "t"
   | .bool false => "f"
   | .int i => s!"i{i}"
-  | .f32 b => "F" ++ toHex (beBytes 4 b)
-  | .f64 b => "D" ++ toHex (beBytes 8 b)
+  | .f32 b => "D" ++ toHex (beBytes 8 (f32to64 b))
+  | .f64 b => if isNaN64 b then "D" ++ toHex (beBytes 8 (2047 * 2 ^ 52 + 2 ^ 51)) else "D" ++ toHex (beBytes 8 b)
   | .str s => "s" ++ toHex s
   | .bin s => "b" ++ toHex s
   | .arr vs => vs.foldl (fun acc v => acc ++ " " ++ vtext v) s!"a{vs.length}"
